@@ -9,8 +9,17 @@ RULE = ("random epsilon-NFA/NFA/DFA specs (0-5 states, 1-3 symbols, string state
         "when the trimmed automaton is acyclic) are compared with the Lean model and with the exact oracles "
         "(isEmpty_iff, isDeterministic_iff theorems; bounded language enumeration; reachable-cycle search). "
         "Non-trivial: >=2 states, >=2 transitions, a start and a final state.")
-THEOREMS = ["Pfl.ENFA.isEmpty_iff", "Pfl.ENFA.isDeterministicE_iff", "Pfl.ENFA.isDeterministicN_iff",
-            "Pfl.ENFA.member_iff", "Pfl.ENFA.langDiff_none_iff"]
+THEOREMS = ["Pfl.ENFA.isEmpty_iff",
+            "Pfl.ENFA.isDeterministicE_iff",
+            "Pfl.ENFA.isDeterministicN_iff",
+            "Pfl.ENFA.reachableCycle_iff",
+            "Pfl.ENFA.isAcyclic_iff",
+            "Pfl.ENFA.mem_langUpTo_iff",
+            "Pfl.ENFA.langUpTo_nodup",
+            "Pfl.ENFA.mem_leadingToFinal_iff",
+            "Pfl.ENFA.acceptedWords_exact",
+            "Pfl.ENFA.acceptedWords_exact_unbounded",
+            "Pfl.ENFA.member_iff"]
 
 
 def generate(rng, tier):
